@@ -284,6 +284,11 @@ cdef class cyBQM_template(cyQMBase):
             raise ValueError("quadratic vectors should be equal length")
         cdef Py_ssize_t length = irow.shape[0]
 
+        cdef Py_ssize_t qi
+        for qi in range(length):
+            if irow[qi] < 0 or icol[qi] < 0:
+                raise ValueError("quadratic indices must be non-negative")
+
         if length:
             bqm.cppbqm.add_quadratic_from_coo(&irow[0], &icol[0], &qdata[0], length)
 
